@@ -696,3 +696,10 @@ func (r *rlocker) Unlock() { (*RWMutex)(r).RUnlock() }
 
 // RLocker mirrors sync.RWMutex.RLocker.
 func (m *RWMutex) RLocker() sync.Locker { return (*rlocker)(m) }
+
+// YieldVal is a preemption point placed behind the evaluation of v (the
+// instrumenter wraps value-returning calls into sync/atomic with it).
+func YieldVal[T any](v T, loc string) T {
+	Yield(loc)
+	return v
+}
